@@ -80,6 +80,10 @@ pub struct LiveCase {
     /// in a cpuset).  The machine the dump describes still has all its processors.
     #[serde(default)]
     pub dumper_pinned: Option<u8>,
+    /// what the kernel can legally report but rarely does: bit 0 = a 1 TiB inaccessible reservation
+    /// (region size beyond 32 bits), bit 1 = 6 000..30 000 additional lines in the memory map
+    #[serde(default)]
+    pub wide: Option<u8>,
 }
 
 fn protection_of(p: u8) -> u32 {
@@ -117,6 +121,14 @@ pub fn check_live(c: &LiveCase) -> Verdict {
     let mut b = Builder::new();
     b.spec.argv = c.argv.clone();
     b.spec.env = c.env.clone();
+    if let Some(k) = c.wide {
+        if k & 1 != 0 {
+            b.add_anon_at(0x6000_0000_0000, 1 << 28, 0, 0);
+        }
+        if k & 2 != 0 || k & 1 == 0 {
+            b.spec.stripes = Some((0x6200_0000_0000, 3000 + (k as u32 >> 2) * 190));
+        }
+    }
     if let Some(k) = c.bulk {
         let total: usize = [200 << 10, (2 << 20) - 40_000 + 7919 * (k as usize >> 3), 3 << 20, 5 << 20][k as usize % 4];
         let mut left = total;
@@ -359,6 +371,14 @@ pub fn check_live(c: &LiveCase) -> Verdict {
     if pinned {
         classes.push("dumping-thread-pinned-to-one-cpu".to_string());
     }
+    if let Some(k) = c.wide {
+        if k & 1 != 0 {
+            classes.push("1TiB-reservation".to_string());
+        }
+        if k & 2 != 0 || k & 1 == 0 {
+            classes.push("thousands-of-map-lines".to_string());
+        }
+    }
     if let Some(k) = c.bulk {
         classes.push(format!("bulk-{}:{}", if (k >> 2) & 1 == 0 { "environment" } else { "arguments" }, ["200KiB", "2MiB", "3MiB", "5MiB"][k as usize % 4]));
     }
@@ -428,7 +448,7 @@ pub fn live_strategy() -> impl Strategy<Value = LiveCase> {
         proptest::collection::vec((any::<u8>(), 0u8..8, any::<bool>()), 0..6),
         0u8..4,
         any::<bool>(),
-        (proptest::bool::weighted(0.3), proptest::bool::weighted(0.25), proptest::option::weighted(0.05, any::<u8>()), proptest::option::weighted(0.25, any::<u8>())),
+        (proptest::bool::weighted(0.3), proptest::bool::weighted(0.25), proptest::option::weighted(0.05, any::<u8>()), proptest::option::weighted(0.25, any::<u8>()), proptest::option::weighted(0.04, any::<u8>())),
         prop_oneof![
             3 => Just(AuxvMode::Kernel),
             2 => Just(AuxvMode::TrueDirect),
@@ -436,7 +456,7 @@ pub fn live_strategy() -> impl Strategy<Value = LiveCase> {
             3 => valid_dso_strategy().prop_map(AuxvMode::Synthetic),
         ],
     )
-        .prop_map(|(argv, env, rlimits, fds, maps, parked, blamed_other, (fd_churn, leader_exit, bulk, dumper_pinned), auxv)| LiveCase { argv, env, rlimits, fds, maps, parked, blamed_other, auxv, fd_churn, leader_exit, bulk, dumper_pinned })
+        .prop_map(|(argv, env, rlimits, fds, maps, parked, blamed_other, (fd_churn, leader_exit, bulk, dumper_pinned, wide), auxv)| LiveCase { argv, env, rlimits, fds, maps, parked, blamed_other, auxv, fd_churn, leader_exit, bulk, dumper_pinned, wide })
 }
 
 pub fn run(ctx: &mut LaneCtx) {
@@ -445,7 +465,7 @@ pub fn run(ctx: &mut LaneCtx) {
         SubSpec {
             name: "live-os-streams",
             cases: (800, 25_000),
-            rule: "generated targets: argv 0..20 (empty, non-UTF-8, long), environment 0..50 variables (one case in twenty adds 0.2 / 2 / 3 / 5 MiB of environment or argument strings, the target being executed under a 64 MiB stack limit so that the kernel accepts them), changed rlimits, 0..60 descriptors of 7 kinds, shared/private mappings of all permissions, blamed thread main/other, the dumping thread free or pinned to a single CPU (the system information must still describe the machine), optionally a thread-group leader that has exited on its own (zombie leader, dump blamed on a live thread); auxv mode {kernel, true direct, direct with some values zero, direct values leading to a synthetic linker list in the target}; oracle as in assumptions; non-trivial = >=10 descriptors of >=3 kinds, or synthetic chain, or partially zero direct auxv; distinct = hash of case",
+            rule: "generated targets: argv 0..20 (empty, non-UTF-8, long), environment 0..50 variables (one case in twenty adds 0.2 / 2 / 3 / 5 MiB of environment or argument strings, the target being executed under a 64 MiB stack limit so that the kernel accepts them), changed rlimits, 0..60 descriptors of 7 kinds, shared/private mappings of all permissions (four cases in a hundred add a 1 TiB inaccessible reservation and / or 6 000..30 000 further lines to the memory map), blamed thread main/other, the dumping thread free or pinned to a single CPU (the system information must still describe the machine), optionally a thread-group leader that has exited on its own (zombie leader, dump blamed on a live thread); auxv mode {kernel, true direct, direct with some values zero, direct values leading to a synthetic linker list in the target}; oracle as in assumptions; non-trivial = >=10 descriptors of >=3 kinds, or synthetic chain, or partially zero direct auxv; distinct = hash of case",
             strategy: live_strategy().boxed(),
             max_shrink_iters: 150,
             log_current: true,
